@@ -69,8 +69,9 @@ def closures_into(target, shared):
     def peek():
         return (target.idx, shared, helper["list"] is shared)
 
-    def two_lists(extra=shared):
-        return (shared, extra, target)
+    def two_lists(extra=shared, again=target):
+        # `again` reaches the vertex through the defaults tuple, not through the (shared) closure cell
+        return (shared, extra, target, again)
 
     return peek, two_lists
 
